@@ -33,6 +33,9 @@ def ntree(fn, ap):
         if n.endswith(("Clone>::clone", "Numeric::abs")):
             inner = ntree(fn, root[2][0])
             return inner if n.endswith("clone") else "abs(%s)" % inner
+        if n.endswith("TryFrom<i64> for i32>::try_from") and projs == ("as Ok", "0"):
+            # a checked conversion is value-preserving on its Ok edge
+            return ntree(fn, root[2][0])
         if n.endswith("Dimensionality::as_single"):
             ps = [p for p in projs if p.isdigit()]
             if "as Some" in projs:
@@ -123,15 +126,22 @@ def prettify_data(chk, F):
     chk.decide(ints == [1, 8, 1000], "prettify-data", fk, "numeric-literals", fn.where(), "numeric literals in prettify are exactly 1, 8, 1000", "numeric literals in prettify are %s (expected 1, 8, 1000)" % ints)
 
 
+# EXP = the unit's own exponent: `orig.1` (as_single of the pretty unit), the same value carried in the (value, (unit, exponent))
+# tuple after the kg / byte special cases (`val.1.1`; the byte arm stores the literal 1 behind `orig.1 == 1`, see
+# byte-only-for-exponent-1), or its checked i32 conversion.
 REF_TREES = {
-    "mul(pow(1000,orig.1),self.value)": "kg -> gram: value x 1000^e",
-    "pow(1000,orig.1)": "1000^e",
+    "mul(pow(1000,EXP),self.value)": "kg -> gram: value x 1000^e",
+    "pow(1000,EXP)": "1000^e",
     "div(self.value,8)": "bit -> byte: value / 8 (only for exponent 1)",
-    "pow(prefix.1,val.1.1)": "prefix value ^ e",
-    "pow(mul(1000,prefix.1),val.1.1)": "(1000 x prefix value) ^ e",
+    "pow(prefix.1,EXP)": "prefix value ^ e",
+    "pow(mul(1000,prefix.1),EXP)": "(1000 x prefix value) ^ e",
     "mul(1000,prefix.1)": "1000 x prefix value",
-    "div(val.0,pow(prefix.1,val.1.1))": "value / prefix^e",
+    "div(val.0,pow(prefix.1,EXP))": "value / prefix^e",
 }
+
+
+def canon_exp(tr):
+    return tr.replace("val.1.1", "EXP").replace("orig.1", "EXP")
 
 
 def prettify_arith(chk, F):
@@ -140,7 +150,7 @@ def prettify_arith(chk, F):
     seen = {}
     for bb, t in fn.calls():
         if "callee" in t and t["callee"]["path"].endswith((NMUL, NDIV, NPOW)):
-            tr = ntree(fn, fn.apath_place(t["dest"]))
+            tr = canon_exp(ntree(fn, fn.apath_place(t["dest"])))
             seen.setdefault(tr, bb)
     for tr, bb in sorted(seen.items()):
         chk.decide(tr in REF_TREES, "prettify-arithmetic", fk, "tree:" + tr, fn.where(bb),
